@@ -32,11 +32,27 @@ ASSUMPTIONS = [
     'walk "defined" = every prefix of the walk exists (Store.get_path raises '
     'otherwise, even if a later ".." would cancel the missing segment)',
     'dict-helper paths never descend through a non-dict leaf (get_in/assoc_path '
-    'raise there); update_in is only required to RETURN the right dictionary '
-    '(it creates missing keys in its input)',
+    'raise there); update_in may create missing keys (as empty dictionaries) '
+    'in its input but must leave every existing entry of it alone',
 ]
 
 KEYS = ['a', 'b', 'c']
+
+
+def same_but_empty_dicts(got, want):
+    """got == want except for additional keys holding (nested) empty dicts."""
+    if isinstance(want, dict):
+        if not isinstance(got, dict):
+            return False
+        for k, v in want.items():
+            if k not in got or not same_but_empty_dicts(got[k], v):
+                return False
+        return all(k in want or only_empty(v) for k, v in got.items())
+    return type(got) == type(want) and got == want
+
+
+def only_empty(x):
+    return isinstance(x, dict) and all(only_empty(v) for v in x.values())
 
 
 # ----------------------------------------------------------------- builders
@@ -249,6 +265,11 @@ def law_dict(res, tree, path, value):
     if out5 != expect5:
         res.fail('update_in', 'update_in(%r,%r,f) -> %r, expected %r'
                  % (tree, path, out5, expect5))
+    # ... and the dictionary handed in keeps every entry it had (update_in
+    # may create missing keys as empty dictionaries along the path, no more)
+    if not same_but_empty_dicts(d5, tree):
+        res.fail('update_in.input', 'update_in(%r,%r,f) changed its input to '
+                 '%r' % (tree, path, d5))
     # enumerations of leaves are mutually inverse
     lv = ref.leaves(tree)
     dp = dict_to_paths((), copy.deepcopy(tree))
